@@ -11,7 +11,8 @@ Cmds == {"LOGIN", "SEARCHBODY", "CREATE", "RENAME", "LIST", "STATUS", "APPEND", 
 Classes == {"plain", "space", "quote", "ctl", "bit8", "empty", "long", "longctl", "long8"}  \* long = 4097 octets
 \* 10, 4096, 4097 octets written with one call; split / bigsplit: 10 octets written as 3 + 7, 6016 octets as
 \* 16 + 6000 (the caller looks at errors only when it closes the literal)
-AppendSizes == {"small", "at", "over", "split", "bigsplit"}
+\* longname: the mailbox name is 4097 octets (a literal of its own, in front of the message literal), the message 10
+AppendSizes == {"small", "at", "over", "split", "bigsplit", "longname"}
 Reactions == {"grant", "refuse"}
 
 VARIABLE case
